@@ -37,9 +37,20 @@ def run(ctx, which):
         traces.append((mode, "replay", tp, len(beh)))
         ctx.log("replayed %d behaviours (mode %s)" % (len(beh), mode))
     # 3. concurrent listeners on the real code, in-lock order, sequential re-execution
-    tp, out = ctx.godriver("c06", "TestConcurrent", out_name="traceC.ndjson",
-                           env={"VERIF_CAP": "0", "VERIF_ROUNDS": "12" if q else "150"})
-    traces.append(("A", "concurrent", tp, 12 if q else 150))
+    try:
+        tp, out = ctx.godriver("c06", "TestConcurrent", out_name="traceC.ndjson",
+                               env={"VERIF_CAP": "0", "VERIF_ROUNDS": "12" if q else "150"})
+        traces.append(("A", "concurrent", tp, 12 if q else 150))
+    except vlib.Inconclusive as e:
+        # the Go runtime kills the process on unsynchronised map access; that is an
+        # observation about the code under test when its frames are on the stack
+        msg = str(e)
+        if ("fatal error: concurrent map" in msg or "DATA RACE" in msg) and "scion-time/core/server" in msg:
+            if which == "C07":
+                ctx.violation("C07 concurrent-crash", "the 16-goroutine driver died in core/server: unsynchronised "
+                              "access to the timestamp store", {"output": msg[-3000:]})
+        else:
+            raise
     if not q:
         tp, out = ctx.godriver("c06", "TestConcurrent", out_name="traceCr.ndjson", race=True,
                                env={"VERIF_CAP": "0", "VERIF_ROUNDS": "40"}, timeout=1500)
